@@ -199,6 +199,22 @@ def run(ctx):
         done += len(batch)
         reqs, meta = [], []
         for doc, g, _ in batch:
+            # graphs DERIVED from a graph that has already been compared (renamed copy: a rotation of the names; the
+            # generations view) are the same models as their own fully-resolved dictionaries, resolved afresh
+            try:
+                g.isclose(g)
+                names = [x.name for x in g.demes]
+                derived = [("derived:in_generations", g.in_generations())]
+                if len(names) > 1:
+                    derived.append(("derived:rename_rotation", g.rename_demes(dict(zip(names, names[1:] + names[:1])))))
+                    derived.append(("derived:rename_reversed_order", g.rename_demes(dict(zip(names, sorted(names, reverse=True))))
+                                    if sorted(names, reverse=True) != names else g.rename_demes({names[0]: "zz_" + names[0]})))
+                for kind, gd in derived:
+                    ref = demes.Graph.fromdict(gd.asdict())
+                    for a, b in ((gd, ref), (ref, gd)):
+                        reqs.append({"op": "isclose", "a": enc(a.asdict()), "b": enc(b.asdict())}); meta.append((doc, kind, a, b, None, None, True))
+            except Exception as e:  # noqa: BLE001
+                ctx.violation(f"a derived graph cannot be built / resolved afresh ({type(e).__name__})", {"document": show(canon_doc(doc))})
             for _ in range(8):
                 rel, ab = ctx.rng.choice(TOLS)
                 kind, d2, exp = perturb(g, ctx.rng, rel, ab)
